@@ -9,6 +9,13 @@ import os
 import sys
 
 HINT = {
+  'h': ("look for what it is least likely to exercise while still being squarely inside the property statement: EXACT BOUNDARIES "
+        "(`<` versus `<=`: a queue exactly full, a size exactly at its minimum or maximum, a load exactly on the band limit, a count exactly "
+        "zero or one, the last element, the first element, an empty collection), the exact ERROR CLASS or error content the statement names "
+        "(a different exception type, a wrapped versus unwrapped error, an error delivered as a value), effects on OTHER calls, members, "
+        "connections or holders than the one being operated on (collateral damage), ORDER of side effects visible to a callback (state "
+        "updated after instead of before a notification), and NUMERIC edge cases (negative numbers, integer division, truncation instead of "
+        "rounding, signed versus unsigned bytes, values that need more bits than usual)."),
   'g': ("look for what it is least likely to exercise while still being squarely inside the property statement: behaviour AFTER RECOVERY (the "
         "second failure after a successful reconnect, a member that leaves and re-joins twice, an object used again after it reported an error, "
         "a second timeout on the same connection), RE-ENTRANCY (a user callback or an upper sink that calls back into the same object while it "
